@@ -352,8 +352,10 @@ Lemma allowed_apx c tokens : wu_ok c -> w_warning c <= tokens <= w_max c ->
 Proof.
   intros (FT & RT & Hcf & HW0 & HWM & HM & Hsl) Ht.
   unfold allowed_of.
+  rewrite wi_id by (unfold two63; lia).
   assert (E0 : (tokens <? 0) = false) by lia. rewrite E0.
   assert (E1 : (tokens >=? w_warning c) = true) by lia. rewrite E1.
+  rewrite (i64_id (tokens - w_warning c)) by (unfold in_i64, two63; lia).
   rewrite Hsl.
   assert (Ug : u32 (w_cf c - 1) = w_cf c - 1).
   { apply u32_id. unfold in_u32. Transparent two32. unfold two32. lia. }
@@ -441,8 +443,8 @@ Proof.
   unfold curve. fold x g D. assert (0 <= x * g)%R by nra. field. repeat split; lra.
 Qed.
 
-Lemma allowed_below c tokens : 0 <= tokens < w_warning c -> allowed_of c tokens = w_thr c.
-Proof. exact (allowed_full c tokens). Qed.
+Lemma allowed_below c tokens : wu_ok c -> 0 <= tokens < w_warning c -> allowed_of c tokens = w_thr c.
+Proof. intros (_ & _ & _ & _ & H1 & H2 & _). apply allowed_full. unfold two63. lia. Qed.
 
 (* finite, positive, never above the threshold (up to 14*2^-52 relative) *)
 Lemma allowed_le_thr c tokens : wu_ok c -> 0 <= tokens <= w_max c ->
@@ -452,7 +454,7 @@ Proof.
   assert (PT : (0 < FR (w_thr c))%R) by (pose proof (bpow_gt_0 radix2 (-64)); lra).
   pose proof wu_eps_pos as Pe.
   destruct (Z_lt_le_dec tokens (w_warning c)) as [L|L].
-  - rewrite allowed_below by lia. split; [exact FT|]. nra.
+  - rewrite allowed_below by (try assumption; lia). split; [exact FT|]. nra.
   - destruct (allowed_apx c tokens Hok ltac:(lia)) as [F A]. split; [exact F|].
     pose proof (approx_pos _ _ _ A) as P. destruct A as (H0 & H1 & H2).
     destruct (curve_eq c tokens Hok L) as (Hx & Hg & HD & _ & Ec). cbv zeta in Ec.
@@ -477,7 +479,7 @@ Proof.
   assert (Hdiv : (FR (w_thr c) / IZR (w_cf c) <= FR (w_thr c))%R).
   { apply div_le_iff; nra. }
   destruct (Z_lt_le_dec tokens (w_warning c)) as [L|L].
-  - rewrite allowed_below by lia. nra.
+  - rewrite allowed_below by (try assumption; lia). nra.
   - destruct (allowed_apx c tokens Hok ltac:(lia)) as [F A].
     pose proof (approx_pos _ _ _ A) as P. destruct A as (H0 & H1 & H2).
     destruct (curve_eq c tokens Hok L) as (Hx & Hg & HD & _ & Ec). cbv zeta in Ec.
